@@ -15,7 +15,7 @@ import Gonuts.Model.MintDriver
 open Gonuts Gonuts.Model
 
 structure St where
-  mint : Model.Mint.Sess := {}
+  mint : Model.Mint.CSess := {}
 
 def u64? (s : Sexp) : Option UInt64 := do
   let n ← s.asNat?
@@ -53,7 +53,7 @@ def step (st : St) (line : String) : St × String :=
       | some out => (st, out.render)
       | none => (st, "(bad-op)")
     else if cmd.startsWith "mint." then
-      match Model.MintDriver.handle st.mint cmd args with
+      match Model.MintDriver.handleC st.mint cmd args with
       | some (m', out) => ({ st with mint := m' }, out.render)
       | none => (st, "(bad-op)")
     else
